@@ -66,6 +66,27 @@ SEED = {
  "C15d": ("C15", "async MemoryFS create_file inserts the empty file only when the path is vacant (entry API): a second create_file does not truncate at once", "create_file on an existing file, then observe (metadata, read, append_file) before the new handle is closed", "async-vfs"),
  "C18d": ("C18", "EmbeddedFS rsplit_once_cow: the Borrowed arm uses split_once instead of rsplit_once", "RELEASE builds only (rust-embed yields borrowed names): a file three or more levels deep is registered under the wrong directory", "embedded-fs"),
  "C19d": ("C19", "OverlayFS time setters copy the entry up first (copy_file carries bytes only)", "set_*_time through the overlay on a file that exists only in a lower layer: Ok, but the other two timestamps are re-stamped", ""),
+ # fifth round (all twenty properties; earlier.txt listed the three earlier changes per property)
+ "C01e": ("C01", "OverlayFS::remove_file / remove_dir write the deletion marker BEFORE removing the write-layer copy", "a removal whose write-layer step fails (remove_file on a directory the write layer holds): the failed call has hidden the entry from listings", ""),
+ "C02e": ("C02", "PhysicalFS create_file/append_file share an OpenOptions helper that forgets truncate(!append)", "create_file over a longer existing file on PhysicalFS keeps the old tail", ""),
+ "C03e": ("C03", "MemoryFS keeps its entries in a BTreeMap and lists a directory by a sorted range scan that stops at the first non-descendant key", "a sibling whose name sorts between '/d' and '/d/' ('/d.bak', '/d-x', '/d e'): read_dir /d is cut short, remove_dir /d succeeds on a non-empty directory", ""),
+ "C04e": ("C04", "OverlayFS::append_file copies a lower-only file up THROUGH the handle it returns (create_file + io::copy) instead of copy_file + append_file", "while that handle is open and unflushed the overlay shows an empty file; a second append session in that window loses the lower bytes", ""),
+ "C05e": ("C05", "OverlayFS::read_dir decodes marker names with trim_end_matches(\"_wo\") (strips the suffix repeatedly)", "remove an entry named x_wo: the sibling x vanishes from the listing although exists/metadata/open_file still see it", ""),
+ "C06e": ("C06", "join_internal restarts from the root at EVERY empty component (the absolute-restart test moved into the loop)", "a relative argument with a doubled slash from a non-root base: /x + a//b gives /a/b", ""),
+ "C07e": ("C07", "AltrootFS::remove_dir refuses the altroot's own root with NotSupported", "remove_dir / remove_dir_all on the root of an altroot (the directory P of the underlying filesystem stays)", ""),
+ "C08e": ("C08", "OverlayFS::remove_file removes the path read_path returned when it lives on the same filesystem INSTANCE as the write layer", "layers that are sub-directories of one filesystem: removing a lower-only file deletes it from the lower layer", ""),
+ "C09e": ("C09", "OverlayFS::append_file takes its copy-up source from the lower layers directly (lower_path), skipping the deletion marker", "append_file on a lower-layer file that was removed through the overlay: succeeds and resurrects the old bytes", ""),
+ "C10e": ("C10", "OverlayFS::remove_dir checks the merged listing for emptiness only when the write layer has no copy of the directory", "a lower directory with entries whose write-layer copy is empty (left by create+remove inside it): remove_dir succeeds, the lower entries stay reachable and come back on re-creation", ""),
+ "C11e": ("C11", "OverlayFS gains a native copy_file that copies into the write layer without clearing the destination's deletion marker", "copy (or copy_dir/move_dir) within one overlay onto a name that was removed earlier: the copy exists but its parent does not list it", ""),
+ "C12e": ("C12", "PhysicalFS::exists returns every OS error but NotFound as Err; VfsPath::exists never fills in the path", "exists / is_file / is_dir / remove_dir_all on a path below a regular file (ENOTDIR): an error with the unfilled placeholder path", ""),
+ "C13e": ("C13", "async PhysicalFS blocking_io calls tokio::task::spawn_blocking without probing for a runtime", "set_modification_time / set_access_time on an AsyncPhysicalFS driven by futures::executor::block_on or async_std: panic instead of NotSupported", "async-vfs"),
+ "C14e": ("C14", "MemoryFS reader seek does Current/End with one signed addition (base as i64).checked_add(offset)", "positions at or above 2^63: Start(u64::MAX); Current(0) errors; Start(2^63+4); Current(i64::MAX) wraps to 3", ""),
+ "C15e": ("C15", "AsyncReadableFile::len() returns the bytes left to read (like the sync helper) while poll_seek still uses it as the base of SeekFrom::End", "seek(End(k)) on an async MemoryFS read handle whose cursor has moved", "async-vfs"),
+ "C16e": ("C16", "MemoryFS::open_file reads under the read lock and stamps the access time under a separate write lock (new yield point)", "between the two: a content change of the same path and a set_access_time - the stamp overwrites the explicitly set time / lands on the entry that replaced the file", "verif-hooks"),
+ "C17e": ("C17", "OverlayFS::ensure_has_parent mirrors a lower-only parent with `if !exists { ensure_has_parent(parent); create_dir }`", "two threads create_dir_all below a directory only the lower layer holds: the loser's DirectoryExists for the PARENT is taken for the child's, the child is skipped", "verif-hooks (deterministic demos; a stress demo needs none)"),
+ "C18e": ("C18", "EmbeddedFS derives Default instead of `Default::default() = Self::new()`: a default-built instance has empty indexes", "EmbeddedFS built with Default::default(): nothing exists but the root, metadata of the root is not-found, open_file still delivers bytes", "embedded-fs"),
+ "C19e": ("C19", "PhysicalFS time setters go through a helper that reads the current times; the fallback for the access time uses the modification time", "set_access_time(A) then set_modification_time(M): the access time becomes the previous modification time", ""),
+ "C20e": ("C20", "VfsPath::create_dir_all forgives a failed create_dir when the path already is a directory", "an I/O failure inside an overlay's create_dir after the write-layer directory was made (marker check / removal): create_dir_all reports success, the directory is hidden from listings", ""),
 }
 matrix = {}
 mp = os.path.join(ROOT, "seeded", "matrix.txt")
